@@ -31,6 +31,28 @@ def instances():
     for hist in ("fresh", "after_init_states", "after_integrate", "after_to_jax"):
         out.append({"kind": "rows", "variant": 0, "history": hist})
         out.append({"kind": "rows", "variant": 1, "history": hist})
+    # voltage tie patterns: compartments that share a bit-identical voltage but differ in the parameters that enter
+    # the steady state (each row must still get the value for its OWN parameters); quick: a few patterns, thorough:
+    # every set partition of the compartments into equal-voltage classes
+    quick = harness.tier() == "quick"
+    for variant, n in ((0, 6), (1, 3)):
+        pats = _partitions(n) if not quick else [p for p in _partitions(n) if len(set(p)) in (1, 2)][:: (7 if n == 6 else 1)]
+        for pat in pats:
+            if len(set(pat)) == n:
+                continue
+            out.append({"kind": "rows", "variant": variant, "history": "fresh", "ties": list(pat)})
+    return out
+
+
+def _partitions(n):
+    """restricted growth strings: every partition of n items into classes"""
+    out = []
+    def rec(prefix, mx):
+        if len(prefix) == n:
+            out.append(tuple(prefix)); return
+        for k in range(mx + 2):
+            rec(prefix + [k], max(mx, k))
+    rec([0], 0)
     return out
 
 
@@ -175,6 +197,8 @@ def run_rows(inst):
     elif hist == "after_to_jax":
         cell.to_jax()
     vs = np.linspace(-93.1, 31.7, n)
+    if inst.get("ties"):
+        vs = np.asarray([vs[inst["ties"][i]] for i in range(n)])     # class k -> one shared bit-identical voltage
     for i in range(n):
         cell.select(nodes=[i]).set("v", float(vs[i]))
     for col, base, step in (("vt", -62.0, 1.7), ("CaT_vx", 1.0, 0.37), ("ct_vx", -3.0, 0.53), ("Km_taumax", 3000.0, 101.0)):
@@ -204,7 +228,7 @@ def run_rows(inst):
                 exp = float(ch.init_state(states, jnp.asarray(float(vs[i])), params, 0.025)[key])
                 checked += 1
                 if not (abs(got - exp) <= 1e-9 * (1 + abs(exp))):
-                    res["violations"].append({"signature": {"query": "rows_own_voltage", "channel": ch._name, "variant": inst["variant"], "history": inst.get("history", "fresh")},
+                    res["violations"].append({"signature": {"query": "rows_own_voltage", "channel": ch._name, "variant": inst["variant"], "history": inst.get("history", "fresh"), "ties": bool(inst.get("ties"))},
                                               "what": f"init_states row {i} {key}: table {got} != init_state at own v/params {exp}",
                                               "replay": {"inst": inst, "row": i, "key": key}})
     other = [c for c in before.columns if c not in sum([list(ch.channel_states) for ch in chans], [])]
